@@ -525,7 +525,8 @@ class MemOrchestrator(BaseOrchestrator):
         return [
             inv_id
             for inv_id in invocation_ids
-            if self.get_invocation_status(inv_id) in status_filter
+            if (record := self.invocation_status_record.get(inv_id)) is not None
+            and record.status in status_filter
         ]
 
     def register_runner_heartbeats(
